@@ -330,69 +330,54 @@ end Qentem.Round
 namespace Qentem.StrToNum
 open Qentem.Round Qentem.Generated.StrToNum
 
-/-- **Negative-exponent scaling is correctly rounded under the margin**: `2^(x/27+1) ≤ num` (or `2^(x/27) ≤ 2·num` when `x < 216`) makes the
-big integer wide enough, so the pipeline is within 1/32 ulp; with the exact value 1/32 ulp away
-from the half-way points the returned pattern is `nearestMag num (10^x)`. -/
-theorem powerOfNegativeTen_exact (num x : Nat) (hn0 : 0 < num)
-    (hnx : (x < 216 ∧ 2 ^ (x / 27) ≤ 2 * num) ∨ 2 ^ (x / 27 + 1) ≤ num) (hn : num < 2 ^ 64)
-    (hx : x ≤ 350) (hm : MarginPair (roundPair num (10 ^ x)).1 (roundPair num (10 ^ x)).2) :
+/-- the big integer is wide enough for `k` steps: at least 60 bits, and a quarter unit `G = 2^(bit−54)`
+with `1024k + 1 ≤ (128 − 8k)·G` (the pipeline error `k` units + relative `k·2^-62` is below `G/8`) -/
+def Wide (b k : Nat) : Prop := 2 ^ 59 ≤ b ∧ 1024 * k + 1 ≤ (128 - 8 * k) * 2 ^ (Nat.log2 b - 54)
+
+theorem Wide.mono {b bb k : Nat} (h : Wide b k) (hb : b ≤ bb) : Wide bb k := by
+  obtain ⟨h1, h2⟩ := h
+  refine ⟨Nat.le_trans h1 hb, Nat.le_trans h2 (Nat.mul_le_mul_left _ (Nat.pow_le_pow_right (by decide) ?_))⟩
+  have hb0 : b ≠ 0 := by intro h; subst h; exact absurd h1 (by decide)
+  have hb0' : bb ≠ 0 := by omega
+  have : Nat.log2 b ≤ Nat.log2 bb := (Nat.le_log2 hb0').2 (Nat.le_trans (log2_bounds b hb0).1 hb)
+  omega
+
+/-- **Negative-exponent scaling is correctly rounded under the margin** whenever the big integer the
+pipeline ends with is `Wide` for the number of steps taken. -/
+theorem powerOfNegativeTen_exact_wide (num x b s : Nat) (hn0 : 0 < num) (hn : num < 2 ^ 64) (hx : x ≤ 350)
+    (hps0 : negScale num x = some (b, s)) (hw : Wide b (stepsOf x))
+    (hm : MarginPair (roundPair num (10 ^ x)).1 (roundPair num (10 ^ x)).2) :
     powerOfNegativeTen num x = some (nearestMag num (10 ^ x)) := by
-  obtain ⟨b, S, k, hps, hk, hS, e1, e2⟩ := negScale_error num x hn (by omega)
+  obtain ⟨bb, S, hps, hS, e1, e2⟩ := negScale_error_steps num x hn (by omega)
+  have hbb : bb = b ∧ x + 64 + S = s := by
+    rw [hps] at hps0
+    simpa using hps0
+  obtain ⟨hbe, _⟩ := hbb
+  subst hbe
   have hdiv : x / 27 ≤ 12 := by omega
-  have hk13 : k ≤ 13 := by omega
-  have hlow := negScale_lower num x b _ hn hps
-  have hb256 := negScale_lt num x b _ hps
-  -- the big integer has at least 63 bits (65 when there may be up to 13 steps)
-  have hbig : (2 ^ 62 ≤ b ∧ k ≤ 8) ∨ 2 ^ 64 ≤ b := by
-    rcases hnx with ⟨hx216, h2⟩ | h2
-    · left
-      constructor
-      · have h3 : 2 ^ (x / 27 + 1) * 2 ^ 62 ≤ num * 2 ^ 64 := by
-          calc 2 ^ (x / 27 + 1) * 2 ^ 62 = 2 ^ (x / 27) * 2 ^ 63 := by rw [Nat.pow_succ]; ring
-            _ ≤ 2 * num * 2 ^ 63 := Nat.mul_le_mul_right _ h2
-            _ = num * 2 ^ 64 := by rw [show (2 : Nat) ^ 64 = 2 * 2 ^ 63 by decide]; ring
-        have h4 : 2 ^ (x / 27 + 1) * 2 ^ 62 < 2 ^ (x / 27 + 1) * (b + 1) := by omega
-        have := Nat.lt_of_mul_lt_mul_left h4
-        omega
-      · omega
-    · right
-      have h3 : 2 ^ (x / 27 + 1) * 2 ^ 64 ≤ num * 2 ^ 64 := Nat.mul_le_mul_right _ h2
-      have h4 : 2 ^ (x / 27 + 1) * 2 ^ 64 < 2 ^ (x / 27 + 1) * (b + 1) := by omega
-      have := Nat.lt_of_mul_lt_mul_left h4
-      omega
-  have hb62 : 2 ^ 62 ≤ b := by
-    rcases hbig with h | h
-    · exact h.1
-    · exact Nat.le_trans (by decide) h
-  have hb0 : b ≠ 0 := by intro h; subst h; exact absurd hb62 (by decide)
-  obtain ⟨hlo, hhi⟩ := log2_bounds b hb0
-  have hbit62 : 62 ≤ Nat.log2 b := (Nat.le_log2 hb0).2 hb62
+  have hk13 : stepsOf x ≤ 13 := Nat.le_trans (stepsOf_le x) (by omega)
+  generalize stepsOf x = k at *
+  have hb256 := negScale_lt num x bb _ hps
+  obtain ⟨hb59, hG⟩ := hw
+  have hb62 : 2 ^ 59 ≤ bb := hb59
+  have hb0 : bb ≠ 0 := by intro h; subst h; exact absurd hb62 (by decide)
+  obtain ⟨hlo, hhi⟩ := log2_bounds bb hb0
+  have hbit62 : 59 ≤ Nat.log2 bb := (Nat.le_log2 hb0).2 hb62
   have hD : 0 < 5 ^ x := Nat.pow_pos (by decide)
-  have hG : 1024 * k + 1 ≤ (128 - 8 * k) * 2 ^ (Nat.log2 b - 54) := by
-    rcases hbig with ⟨_, hk8⟩ | h64
-    · have h1 : 2 ^ 8 ≤ 2 ^ (Nat.log2 b - 54) := Nat.pow_le_pow_right (by decide) (by omega)
-      have h2 : 64 ≤ 128 - 8 * k := by omega
-      calc 1024 * k + 1 ≤ 64 * 2 ^ 8 := by omega
-        _ ≤ (128 - 8 * k) * 2 ^ (Nat.log2 b - 54) := Nat.mul_le_mul h2 h1
-    · have hbit64 : 64 ≤ Nat.log2 b := (Nat.le_log2 hb0).2 h64
-      have h1 : 2 ^ 10 ≤ 2 ^ (Nat.log2 b - 54) := Nat.pow_le_pow_right (by decide) (by omega)
-      have h2 : 24 ≤ 128 - 8 * k := by omega
-      calc 1024 * k + 1 ≤ 24 * 2 ^ 10 := by omega
-        _ ≤ (128 - 8 * k) * 2 ^ (Nat.log2 b - 54) := Nat.mul_le_mul h2 h1
-  have hbG : b < 2 ^ 55 * 2 ^ (Nat.log2 b - 54) := by
-    rw [← Nat.pow_add, show 55 + (Nat.log2 b - 54) = Nat.log2 b + 1 by omega]; exact hhi
-  obtain ⟨q1, q2⟩ := eighth_of_error b (num * 2 ^ (64 + S)) (5 ^ x) k (2 ^ (Nat.log2 b - 54)) hD hk13 hG hbG e1 e2
-  have hGb : 2 * 2 ^ (Nat.log2 b - 54) ≤ b := by
-    calc 2 * 2 ^ (Nat.log2 b - 54) = 2 ^ (Nat.log2 b - 54 + 1) := by rw [Nat.pow_succ]; ring
-      _ ≤ 2 ^ Nat.log2 b := Nat.pow_le_pow_right (by decide) (by omega)
-      _ ≤ b := hlo
+  have hbG : bb < 2 ^ 55 * 2 ^ (Nat.log2 bb - 54) := by
+    rw [← Nat.pow_add, show 55 + (Nat.log2 bb - 54) = Nat.log2 bb + 1 by omega]; exact hhi
+  obtain ⟨q1, q2⟩ := eighth_of_error bb (num * 2 ^ (64 + S)) (5 ^ x) k (2 ^ (Nat.log2 bb - 54)) hD hk13 hG hbG e1 e2
+  have hGb : 2 * 2 ^ (Nat.log2 bb - 54) ≤ bb := by
+    calc 2 * 2 ^ (Nat.log2 bb - 54) = 2 ^ (Nat.log2 bb - 54 + 1) := by rw [Nat.pow_succ]; ring
+      _ ≤ 2 ^ Nat.log2 bb := Nat.pow_le_pow_right (by decide) (by omega)
+      _ ≤ bb := hlo
   generalize hN : num * 2 ^ (64 + S) = N at *
-  generalize hGd : 2 ^ (Nat.log2 b - 54) = G at *
+  generalize hGd : 2 ^ (Nat.log2 bb - 54) = G at *
   have hNlow : 2 ^ 58 * 5 ^ x ≤ N := by
-    have h1 : (b - G) * 5 ^ x ≤ N := by
+    have h1 : (bb - G) * 5 ^ x ≤ N := by
       rw [Nat.sub_mul]; omega
-    have h2 : 2 ^ 58 ≤ b - G := by
-      have : (2 : Nat) ^ 62 = 2 ^ 58 + 15 * 2 ^ 58 := by decide
+    have h2 : 2 ^ 58 ≤ bb - G := by
+      have : (2 : Nat) ^ 59 = 2 ^ 58 + 2 ^ 58 := by decide
       omega
     exact Nat.le_trans (Nat.mul_le_mul_right _ h2) h1
   have hq0 : N / 5 ^ x ≠ 0 := by
@@ -423,7 +408,7 @@ theorem powerOfNegativeTen_exact (num x : Nat) (hn0 : 0 < num)
       (by rw [hshx, hN]; exact hL1) (by rw [hshx, hN]; exact hL2)).1 hm
     rw [hshx, hN] at this
     exact this
-  have hexact := raw_exact_rat b (x + 64 + S) N (5 ^ x) L hD (Nat.le_trans (by decide) hb62)
+  have hexact := raw_exact_rat bb (x + 64 + S) N (5 ^ x) L hD (Nat.le_trans (by decide) hb62)
     (by rw [hGd]; exact q1) (by rw [hGd]; exact q2) hL1 hL2 hm'
   have hspec : nearestMag num (10 ^ x) = cap (ratRaw N (5 ^ x) (x + 64 + S) L) := by
     rw [h10]
@@ -431,11 +416,56 @@ theorem powerOfNegativeTen_exact (num x : Nat) (hn0 : 0 < num)
       (by rw [hshx, hN]; exact hL1) (by rw [hshx, hN]; exact hL2)
     rw [hshx, hN] at this
     exact this
-  have hb53 : 2 ^ 53 ≤ b := Nat.le_trans (by decide) hb62
-  have hcap : cap (codeRawNeg b (x + 64 + S)) = codeRawNeg b (x + 64 + S) := by
-    have := codeRawNeg_lt_inf b (x + 64 + S) hb53 hb256
+  have hb53 : 2 ^ 53 ≤ bb := Nat.le_trans (by decide) hb62
+  have hcap : cap (codeRawNeg bb (x + 64 + S)) = codeRawNeg bb (x + 64 + S) := by
+    have := codeRawNeg_lt_inf bb (x + 64 + S) hb53 hb256
     unfold cap; simp [Nat.not_le.2 this]
   rw [hspec, hexact, hcap]
-  simp [powerOfNegativeTen, hps, negFinish_eq b (x + 64 + S) hb53 hb256 (by omega)]
+  simp [powerOfNegativeTen, hps, negFinish_eq bb (x + 64 + S) hb53 hb256 (by omega)]
+
+/-- the earlier sufficient condition: `2^(x/27+1) ≤ num` (or `2^(x/27) ≤ 2·num` when `x < 216`) makes the big integer wide enough -/
+theorem powerOfNegativeTen_exact (num x : Nat) (hn0 : 0 < num)
+    (hnx : (x < 216 ∧ 2 ^ (x / 27) ≤ 2 * num) ∨ 2 ^ (x / 27 + 1) ≤ num) (hn : num < 2 ^ 64)
+    (hx : x ≤ 350) (hm : MarginPair (roundPair num (10 ^ x)).1 (roundPair num (10 ^ x)).2) :
+    powerOfNegativeTen num x = some (nearestMag num (10 ^ x)) := by
+  obtain ⟨b, S, hps, hS, e1, e2⟩ := negScale_error_steps num x hn (by omega)
+  have hdiv : x / 27 ≤ 12 := by omega
+  have hk := stepsOf_le x
+  have hlow := negScale_lower num x b _ hn hps
+  have hbig : (2 ^ 62 ≤ b ∧ stepsOf x ≤ 8) ∨ 2 ^ 64 ≤ b := by
+    rcases hnx with ⟨hx216, h2⟩ | h2
+    · left
+      constructor
+      · have h3 : 2 ^ (x / 27 + 1) * 2 ^ 62 ≤ num * 2 ^ 64 := by
+          calc 2 ^ (x / 27 + 1) * 2 ^ 62 = 2 ^ (x / 27) * 2 ^ 63 := by rw [Nat.pow_succ]; ring
+            _ ≤ 2 * num * 2 ^ 63 := Nat.mul_le_mul_right _ h2
+            _ = num * 2 ^ 64 := by rw [show (2 : Nat) ^ 64 = 2 * 2 ^ 63 by decide]; ring
+        have h4 : 2 ^ (x / 27 + 1) * 2 ^ 62 < 2 ^ (x / 27 + 1) * (b + 1) := by omega
+        have := Nat.lt_of_mul_lt_mul_left h4
+        omega
+      · omega
+    · right
+      have h3 : 2 ^ (x / 27 + 1) * 2 ^ 64 ≤ num * 2 ^ 64 := Nat.mul_le_mul_right _ h2
+      have h4 : 2 ^ (x / 27 + 1) * 2 ^ 64 < 2 ^ (x / 27 + 1) * (b + 1) := by omega
+      have := Nat.lt_of_mul_lt_mul_left h4
+      omega
+  have hb62 : 2 ^ 62 ≤ b := by
+    rcases hbig with h | h
+    · exact h.1
+    · exact Nat.le_trans (by decide) h
+  have hb0 : b ≠ 0 := by intro h; subst h; exact absurd hb62 (by decide)
+  have hbit62 : 62 ≤ Nat.log2 b := (Nat.le_log2 hb0).2 hb62
+  refine powerOfNegativeTen_exact_wide num x b _ hn0 hn hx hps ⟨Nat.le_trans (by decide) hb62, ?_⟩ hm
+  generalize stepsOf x = k at *
+  rcases hbig with ⟨_, hk8⟩ | h64
+  · have h1 : 2 ^ 8 ≤ 2 ^ (Nat.log2 b - 54) := Nat.pow_le_pow_right (by decide) (by omega)
+    have h2 : 64 ≤ 128 - 8 * k := by omega
+    calc 1024 * k + 1 ≤ 64 * 2 ^ 8 := by omega
+      _ ≤ (128 - 8 * k) * 2 ^ (Nat.log2 b - 54) := Nat.mul_le_mul h2 h1
+  · have hbit64 : 64 ≤ Nat.log2 b := (Nat.le_log2 hb0).2 h64
+    have h1 : 2 ^ 10 ≤ 2 ^ (Nat.log2 b - 54) := Nat.pow_le_pow_right (by decide) (by omega)
+    have h2 : 24 ≤ 128 - 8 * k := by omega
+    calc 1024 * k + 1 ≤ 24 * 2 ^ 10 := by omega
+      _ ≤ (128 - 8 * k) * 2 ^ (Nat.log2 b - 54) := Nat.mul_le_mul h2 h1
 
 end Qentem.StrToNum
